@@ -58,7 +58,30 @@ def plan(tier, seed):
     return [dict(seed=seed, shard=i, n=n) for i in range(16)]
 
 
+def gen_boundary_case(rng):
+    """one group whose cyclic frame needs exactly MAXSIZE + delta bytes"""
+    target = Packet.MAXSIZE + rng.choice([-2, -1, 0, 0, 1, 1, 2, 2, 3])
+    fmmu = rng.random() < 0.5
+    nt = rng.randint(1, 4)
+    terms = []
+    need = 16 + (12 if fmmu else 0)
+    for i in range(nt):
+        per = 0 if fmmu else 12
+        room = target - need - per * (nt - i)
+        if i == nt - 1:
+            isz = room
+        else:
+            isz = rng.randint(1, max(1, room // (nt - i)))
+        need += per + isz
+        terms.append(dict(pos=10 + i, isz=isz, osz=0, fmmu=fmmu, rw=False,
+                          aero=False, decl_in=None, decl_out=None))
+    return dict(terms=terms, groups=[list(range(nt))],
+                fast=[rng.random() < 0.3], boundary=target)
+
+
 def gen_case(rng):
+    if rng.random() < 0.15:
+        return gen_boundary_case(rng)
     nt = rng.randint(1, 12)
     big = rng.random() < 0.12
     terms = []
@@ -167,6 +190,8 @@ def check_case(case, res, sess):
             need += 12 + fo
             ndg += 1
         fits = need <= Packet.MAXSIZE and ndg <= 15
+        if abs(need - Packet.MAXSIZE) <= 3:
+            res.count(f"frame_size_boundary[{need - Packet.MAXSIZE:+d}]")
         if ok and not fits:
             res.violation("unexplained:oversized-group-accepted",
                           f"group needs {need} bytes / {ndg} datagrams but "
@@ -375,7 +400,9 @@ def finalize(res, tier, seed):
     c = res.counters
     for k in ("groups_allocated", "groups_rejected", "regions_checked",
               "dynamic_input_regions", "dynamic_output_regions",
-              "logical_windows"):
+              "logical_windows", "frame_size_boundary[+0]",
+              "frame_size_boundary[+1]", "frame_size_boundary[+2]",
+              "frame_size_boundary[-1]"):
         if not c.get(k):
             res.inconc(f"{k}: never observed")
 
